@@ -89,6 +89,36 @@ def string_literal(text: str, style: int = 0) -> str:
 
 def value_text(v: typing.Any, style: int = 0) -> str:
     """v: ["rat", p, q] | ["str", s] | ["bool", b] | ["set"]"""
+    if v[0] == "rat" and style >= 8:
+        # the same exact rational written as an expression (what is stored is the value of the expression, never a rounding of it)
+        p, q = v[1], v[2]
+        a, sign = abs(p), ("-" if p < 0 else "")
+        e = (style // 8) % 8
+        base = value_text(v, style % 8)
+        if e == 1 and q > 1:
+            for b in (10, 2, 3, 5, 7, 6):
+                k, x = 0, q
+                while x % b == 0:
+                    x //= b
+                    k += 1
+                if x == 1:
+                    return "%s%d * %d ** -%d" % (sign, a, b, k)
+        if e == 7 and q > 1 and (10 ** 40) % q == 0 and q <= 10**30:
+            k = next(k for k in range(1, 41) if (10**k) % q == 0)
+            digits = str(a * (10**k // q)).rjust(k + 1, "0")
+            return "%s%s.%s" % (sign, digits[:-k], digits[-k:])
+        if e == 2:
+            return base + " + 0"
+        if e == 3:
+            return "(%s) * 1" % base
+        if e == 4:
+            return base + " - 1 + 1"
+        if e == 5:
+            return "2 * (%s) / 2" % base
+        if e == 6:
+            return "(%s) ** 1" % base
+        return base
+    style = style % 8 if v[0] == "rat" else style
     if v[0] == "rat":
         p, q = v[1], v[2]
         a = abs(p)
@@ -255,9 +285,12 @@ def _random_cases() -> st.SearchStrategy:
                 st.fractions(min_value=-2, max_value=2, max_denominator=1000),
             )
             rel = st.tuples(anchors, st.integers(-4, 4), st.integers(40, 70)).map(lambda t: t[0] * (1 + Fraction(t[1], 2 ** t[2])))
-            vals = st.one_of(st.tuples(anchors, delta).map(lambda t: t[0] + t[1]), rel, st.fractions(min_value=lo, max_value=hi))
+            # differences far below the resolution of any binary float: a value is in range or not, exactly
+            tiny = st.tuples(st.sampled_from([-1, 1, 3]), st.sampled_from([(10, 20), (10, 100), (10, 400), (2, 1075), (2, 1100), (3, 700)])).map(lambda t: Fraction(t[0], t[1][0] ** t[1][1]))
+            vals = st.one_of(st.tuples(anchors, delta).map(lambda t: t[0] + t[1]), rel, st.fractions(min_value=lo, max_value=hi), st.tuples(anchors, tiny).map(lambda t: t[0] + t[1]))
         else:
-            delta = st.one_of(st.integers(-3, 3).map(Fraction), st.fractions(min_value=-3, max_value=3, max_denominator=16))
+            delta = st.one_of(st.integers(-3, 3).map(Fraction), st.fractions(min_value=-3, max_value=3, max_denominator=16),
+                              st.tuples(st.sampled_from([-1, 1]), st.sampled_from([10**3, 10**20, 10**400, 2**70, 3**5])).map(lambda t: Fraction(t[0], t[1])))
             vals = st.one_of(st.tuples(anchors, delta).map(lambda t: t[0] + t[1]), st.integers(int(lo), int(hi)).map(Fraction))
         rat = vals.map(lambda f: ["rat", f.numerator, f.denominator])
         chars = st.characters(blacklist_categories=("Cs",), blacklist_characters="\r\n").map(lambda c: ["str", c])
@@ -265,7 +298,78 @@ def _random_cases() -> st.SearchStrategy:
             lambda v: {"type": spec, "value": v}
         )
 
-    return st.sampled_from(all_types()).flatmap(with_value).flatmap(lambda c: st.integers(0, 7).map(lambda s: dict(c, style=s)))
+    return st.sampled_from(all_types()).flatmap(with_value).flatmap(lambda c: st.integers(0, 63).map(lambda s: dict(c, style=s)))
+
+
+# ---------------------------------------------------------------------------------------------------------------------
+# A constant used by a later constant of the same definition: what the name stands for is the *stored* value (the code point of a
+# character initialiser, the exact rational, the boolean), and the later constant must comply with its own type just the same.
+
+REF_FORMS = ["A", "A + 1", "A * 2", "A / 2", "-A", "!A", "A == LIT", "A != LIT", "A - 1", "A % 7", "A + A / 1000"]
+
+
+def _apply_form(form: str, val: typing.Any) -> typing.Any:
+    """Model: the value of `form` when A holds val (Fraction or bool); None = undefined (invalid definition)."""
+    is_bool = isinstance(val, bool)
+    if form == "A":
+        return val
+    if form in ("A == LIT", "A != LIT"):
+        return form == "A == LIT"
+    if form == "!A":
+        return (not val) if is_bool else None
+    if is_bool:
+        return None
+    return {"A + 1": val + 1, "A * 2": val * 2, "A / 2": val / 2, "-A": -val, "A - 1": val - 1, "A % 7": val % 7, "A + A / 1000": val + val / 1000}[form]
+
+
+def check_reference(case: typing.Any, ctx: Ctx) -> Info:
+    import pydsdl
+
+    spec1, v1, spec2, form = case["first"]["type"], case["first"]["value"], case["second"], REF_FORMS[case["form"] % len(REF_FORMS)]
+    ok1, stored1 = expected(spec1, v1)
+    if not ok1:
+        return Info(False, ["first-constant-invalid"])
+    lit = ("true" if stored1 else "false") if isinstance(stored1, bool) else "(%d/%d)" % (stored1.numerator, stored1.denominator)
+    text2 = form.replace("LIT", lit)
+    val2 = _apply_form(form, stored1)
+    if val2 is None:
+        accept, stored2 = False, None
+    elif isinstance(val2, bool):
+        accept, stored2 = expected(spec2, ["bool", val2])
+    else:
+        accept, stored2 = expected(spec2, ["rat", val2.numerator, val2.denominator])
+    gap = case.get("gap", 0)
+    filler = ["", "# a comment", "uint8 between", "@assert true", "void3"][gap % 5]
+    source = "%s A = %s\n%s%s B = %s\n@sealed\n" % (type_text(spec1), value_text(v1, case.get("style", 0)), (filler + "\n") if gap else "", type_text(spec2), text2)
+    d = ctx.scratch()
+    try:
+        os.makedirs(os.path.join(d, ROOT))
+        with open(os.path.join(d, ROOT, "K.1.0.dsdl"), "w") as f:
+            f.write(source)
+        res, ex = guarded(pydsdl.read_namespace, os.path.join(d, ROOT), [], allowed=(pydsdl.InvalidDefinitionError,), what="read")
+    finally:
+        ctx.cleanup(d)
+    if accept:
+        require(ex is None, "valid-constant-rejected:by-reference:" + spec2[0], "accepted", "%s: %s" % (type(ex).__name__, ex), source)
+        consts = {c.name: c for c in res[0].constants}
+        _check_stored(consts["A"], spec1, stored1, source)
+        _check_stored(consts["B"], spec2, stored2, source)
+    else:
+        require(ex is not None, "invalid-constant-accepted:by-reference:" + spec2[0], "InvalidDefinitionError", "accepted", source)
+    near = val2 is not None and not isinstance(val2, bool) and spec2[0] != "bool" and _near_boundary(spec2, ["rat", val2.numerator, val2.denominator])
+    return Info(True, ["by-reference", "first:" + v1[0], "form:" + form, "accept" if accept else "reject"] + (["near-boundary"] if near else []), sample=source)
+
+
+def _reference_cases() -> st.SearchStrategy:
+    firsts = st.one_of(
+        _random_cases(),
+        st.tuples(st.sampled_from([["uint", 8, "sat"], ["uint", 8, "trunc"]]), st.integers(0, 127).map(chr), st.integers(0, 15)).map(lambda t: {"type": t[0], "value": ["str", t[1]], "style": t[2]}),
+        st.sampled_from([True, False]).map(lambda b: {"type": ["bool"], "value": ["bool", b], "style": 0}),
+    )
+    seconds = st.one_of(st.sampled_from(all_types()), st.sampled_from([["uint", 8, "sat"], ["uint", 7, "sat"], ["int", 8], ["uint", 16, "sat"], ["float", 16, "sat"], ["bool"]]))
+    return st.tuples(firsts, seconds, st.integers(0, len(REF_FORMS) - 1), st.integers(0, 4)).map(
+        lambda t: {"first": {"type": t[0]["type"], "value": t[0]["value"]}, "style": t[0].get("style", 0), "second": t[1], "form": t[2], "gap": t[3]}
+    )
 
 
 STRING_TYPES = [["uint", 8, "sat"], ["uint", 8, "trunc"], ["uint", 8, "sat"], ["uint", 7, "sat"], ["uint", 9, "sat"], ["uint", 16, "trunc"], ["uint", 64, "sat"],
@@ -304,6 +408,7 @@ def parts(ctx: Ctx) -> typing.List[Part]:
         Part("grid", None, check_constant, weight=0, grid=_grid),
         Part("random", _random_cases(), check_constant, weight=4),
         Part("strings", _string_cases(), check_constant, weight=2),
+        Part("references", _reference_cases(), check_reference, weight=2),
         Part("strings-grid", None, check_constant, weight=0, grid=_string_grid),
         Part("incapable", incapable, check_incapable, weight=1, min_examples=10),
     ]
